@@ -101,3 +101,16 @@ claim('C11', 'exploration',
       'UTF-16, forced default over UTF-16 bytes) are executed for memory safety only and reported as undetermined.',
       'runtime monitoring: exhaustive configuration-matrix enumeration against a transcribed decision function',
       'DESIGN.md section 4, C11')
+
+claim('C14', 'exploration',
+      'For 16 (thorough 64) fixture CIFs with nested save frames, scalar and multi-packet loops (up to ~190 callbacks): '
+      'the all-continue walk is reconstructed into a tree and must equal the dump obtained without cif_walk (every element '
+      'once, parents first, frames before loops, start before end, items with name and value); then every single '
+      'non-continue answer {SKIP_CURRENT, SKIP_SIBLINGS, END, CIF_CLIENT_ERROR, 77} at every callback (exhaustive), pairs '
+      '(thorough) and random dense programs are walked and judged by an abstract interpreter of the documented semantics '
+      '(must / may / must-not), together with the return value, handle queries inside callbacks, the ledger and the '
+      'transaction state.',
+      'The reference element order is that of the all-continue walk of the same unchanged CIF.  End callbacks of skipped '
+      'elements / of parents after SKIP_SIBLINGS are "may".',
+      'runtime monitoring: trace-specification checking of callback logs, exhaustive single-answer handler programs',
+      'DESIGN.md section 4, C14')
